@@ -16,6 +16,7 @@ package server
 // now on Ping of runner r parks (needsReload holds refMu) until `pingdone r 0|1` or until its 10 s context ends;
 // `ping r 3` = the same but the mock releases the caller's refMu while parked (the scheduler thread descheduled between
 // needsReload and useLoadedRunner);
+// `sysmem K` (cpu configurations) = K KiB of free system memory reported to the scheduler;
 // `closefail r 0|1` = Close of runner r returns nil / an error (the call completes and counts all the same);
 // `envspell k` (first event only) = the spelling of the OLLAMA_* values the driver writes (plain, quoted, spaces);
 // options classes 0..5 = NumCtx 8/16 x use_mmap unset/true/false (fresh pointer per request);
@@ -37,7 +38,7 @@ package server
 // c02-not-drained c11-over-limit c11-two-per-model c11-no-reuse c11-victim-busy (SCHED_PROTOCOL.md) and, in addition,
 // c11-wrong-options (a runner is started with NumCtx != the request's NumCtx x the parallel factor passed),
 // c11-started-without-fit (a runner started next to loaded ones although its own estimate exceeds the free memory),
-// c02-deadlock-queue / -lockorder / -handover / -unconsumed (goroutines parked for good, see monitors();
+// c02-deadlock-queue / -lockorder / -handover / -unconsumed / -self-queue (goroutines parked for good, see monitors();
 // once one of them fired the liveness monitors are silent for that trace).
 // c02-unanswered is evaluated at every quiescent point at which no load / Ping / Close is in flight, every request that
 // holds a runner is done and 300 ms of fake time have passed since the last event (at the very end of a drained trace
@@ -145,7 +146,7 @@ func (e schedEv) String() string {
 	switch e.kind {
 	case "submit", "submitr":
 		return fmt.Sprintf("%s %d %d %s", e.kind, e.a, e.b, e.sess)
-	case "done", "unload", "advance", "parallel", "gpumem", "closedelay", "envspell":
+	case "done", "unload", "advance", "parallel", "gpumem", "closedelay", "envspell", "sysmem":
 		return fmt.Sprintf("%s %d", e.kind, e.a)
 	default:
 		return fmt.Sprintf("%s %d %d", e.kind, e.a, e.b)
@@ -196,7 +197,7 @@ func schedParse(line string) (schedCfg, []schedEv, error) {
 		switch f[0] {
 		case "submit", "submitr":
 			want = 4
-		case "done", "unload", "advance", "parallel", "gpumem", "closedelay", "envspell":
+		case "done", "unload", "advance", "parallel", "gpumem", "closedelay", "envspell", "sysmem":
 			want = 2
 		case "loaddone", "ping", "failstart", "pingdone", "closefail":
 		default:
@@ -460,6 +461,7 @@ type schedRun struct {
 	srv        *Server
 	closeDelay time.Duration // for runners started from now on (`closedelay`)
 	gpumem     int           // `gpumem`
+	sysmem     int           // `sysmem` (KiB, 0 = plenty)
 	routedWait int           // scheduleRunner calls that have not returned
 	inWindow   bool
 	spell      int // spelling of the environment values (`envspell`)
@@ -472,6 +474,7 @@ type schedCensus struct {
 	schedSend, handover                      int
 	ppIdle, ppWaitUnload, pcIdle             bool // where the two scheduler loops are parked
 	ppSelect, sendChans                      string
+	ppSelf                                   string // the pending loop itself sleeps / sends on its own queue
 	activeDesc, mutexDesc                    string
 }
 
@@ -578,6 +581,12 @@ func (r *schedRun) scan(b []byte, c *schedCensus, ids map[string]bool) {
 			}
 		case strings.HasPrefix(st, "sleep"):
 			c.sleeping++
+			// the first frame of package server: the pending loop itself must never sleep
+			if i := bytes.Index(b, []byte("ollama/server.")); i >= 0 && bytes.HasPrefix(b[i:], []byte("ollama/server.(*Scheduler).processPending(")) {
+				if e := bytes.Index(b, []byte("\n\n")); e < 0 || i < e {
+					c.ppSelf = "sleeping in time.Sleep"
+				}
+			}
 		case strings.HasPrefix(st, "chan send"):
 			c.durable++
 			// a scheduler goroutine parked on a send: a full scheduler channel (their capacity is OLLAMA_MAX_QUEUE)
@@ -590,6 +599,9 @@ func (r *schedRun) scan(b []byte, c *schedCensus, ids map[string]bool) {
 				c.handover++ // the unbuffered hand-over of a runner to its requester (made with refMu held)
 			case strings.Contains(src, "pendingReqCh <-"):
 				// a delayed request waits for room in the pending queue: processPending may be waiting for a `done`
+				if bytes.HasPrefix(b, []byte("github.com/ollama/ollama/server.(*Scheduler).processPending(")) {
+					c.ppSelf = "parked in a send on pendingReqCh" // ... unless it is the loop itself: nobody else receives from it
+				}
 			case src != "":
 				c.schedSend++
 				// which channel: the text before "<-" on that source line
@@ -878,6 +890,9 @@ func (r *schedRun) gpus() discover.GpuInfoList {
 		g := discover.GpuInfo{Library: "cpu"}
 		g.TotalMemory = 32 * format.GigaByte
 		g.FreeMemory = 26 * format.GigaByte
+		if r.sysmem > 0 {
+			g.FreeMemory = uint64(r.sysmem) * format.KibiByte // `sysmem K`: the free system memory the scheduler is told
+		}
 		return discover.GpuInfoList{g}
 	}
 	var l discover.GpuInfoList
@@ -956,7 +971,7 @@ func (r *schedRun) setup() {
 		// "while other models are loaded, a new runner is started only on GPUs where it is predicted to fit in the memory
 		// those models leave free": the GPU list handed over carries the free memory after updateFreeSpace; the estimate the
 		// runner itself would make (llm.NewLlamaServer calls EstimateGPULayers on these inputs) must not plan more than that
-		if len(gpus) > 0 && gpus[0].Library != "cpu" {
+		if len(gpus) > 0 {
 			others := 0
 			locked := r.s.loadedMu.TryLock()
 			for _, ref := range r.s.loaded {
@@ -967,7 +982,24 @@ func (r *schedRun) setup() {
 			if locked {
 				r.s.loadedMu.Unlock()
 			}
-			if others > 0 {
+			if others > 0 && gpus[0].Library == "cpu" {
+				// CPU mode: the whole model lives in system memory.  The estimate's TotalSize, but never less than the sum
+				// of the model's tensor sizes (so that a TotalSize that is not filled in cannot hide), against the free
+				// system memory the scheduler was given
+				est := llm.EstimateGPULayers(gpus, f, projectors, opts, numParallel)
+				need, tensors := est.TotalSize, uint64(0)
+				for _, t := range f.Tensors().Items() {
+					tensors += t.Size()
+				}
+				r.stats["sc_started_next_to_loaded_cpu"]++
+				if need < tensors {
+					need = tensors
+				}
+				if need > gpus[0].FreeMemory {
+					r.noFit = append(r.noFit, fmt.Sprintf("runner for model %d started next to %d loaded runner(s) in CPU mode: it needs %d bytes (estimate TotalSize %d, tensors %d) but %d bytes of system memory are free",
+						mi, others, need, est.TotalSize, tensors, gpus[0].FreeMemory))
+				}
+			} else if others > 0 {
 				est := llm.EstimateGPULayers(gpus, f, projectors, opts, numParallel)
 				r.stats["sc_started_next_to_loaded"]++
 				for i := range gpus {
@@ -1146,6 +1178,8 @@ func (r *schedRun) enabled(e schedEv) bool {
 		return len(r.executed) == 0 && e.a == r.spell // only as the first event: the environment is written before InitScheduler
 	case "parallel":
 		return e.a >= 0 && e.a <= 8
+	case "sysmem":
+		return e.a >= 0 && e.a <= 1<<30 && r.cfg.cpu == 1
 	case "gpumem":
 		// K >= 2 only with a single GPU: a runner placed on two GPUs (spread, or a partial first load) makes the real
 		// waitForVRAMRecovery poll discover.GetGPUInfo for 5 s
@@ -1322,6 +1356,8 @@ func (r *schedRun) apply(e schedEv) bool {
 		// took effect before InitScheduler (schedRunOne)
 	case "gpumem":
 		r.gpumem = e.a
+	case "sysmem":
+		r.sysmem = e.a
 	case "closedelay":
 		r.closeDelay = time.Duration(e.a) * time.Millisecond
 	case "failstart":
@@ -1547,6 +1583,12 @@ func (r *schedRun) monitors(e schedEv, subq *schedReq, sn schedSnap) {
 		// requester has left without its answer; refMu stays held, the loop (or the load goroutine) never returns
 		r.flag("c02-deadlock-handover", fmt.Sprintf("%d goroutines parked in the hand-over of a runner to a requester that is no longer listening (%d more parked on a mutex: %s)",
 			r.cen.handover, r.cen.mutex, r.cen.mutexDesc))
+	}
+	if r.cen.ppSelf != "" {
+		// the pending loop is the only receiver of pendingReqCh: if it sends on it (or sleeps with the queue unattended)
+		// every queued request waits, and with a full queue it waits for ever
+		r.flag("c02-deadlock-self-queue", fmt.Sprintf("the pending loop (processPending itself, not a helper goroutine) is %s; %d of %d queue slots are taken",
+			r.cen.ppSelf, len(r.s.pendingReqCh), cap(r.s.pendingReqCh)))
 	}
 	if strings.Contains(r.cen.sendChans, "s.unloadedCh") && r.cen.ppSelect != "" && !strings.Contains(r.cen.ppSelect, "s.unloadedCh") {
 		// processCompleted reports every unload on unloadedCh; processPending is parked in a select that does not
